@@ -666,6 +666,24 @@ pub fn enumerate(thorough: bool, seed: u64, f: &(dyn Fn(&Program, u64, &str, &mu
     });
     total_stats.merge(s);
     bounds.insert("structure_like_contents".into(), json!("{a finished 2-entry archive, two of them, 6 record signatures amid zeros} x 4 methods x {only, last of 2, middle of 3} x {no comment, comment}"));
+    // (13) contents whose compressed form is exactly as long as they are (per method): equal sizes are not "stored"
+    {
+        let neutral = neutral_contents();
+        let nr = &neutral;
+        let s = par_for((neutral.len() * 3) as u64, 1, |i, st| {
+            let (m, c) = &nr[i as usize / 3];
+            let odd = E { kind: 0, name: "neutral".into(), content: c.clone(), opts: FOpts::m(*m) };
+            let plain = |n: &str| E { kind: 0, name: n.into(), content: content_class(2, seed), opts: FOpts::m(0) };
+            let entries = match i % 3 {
+                0 => vec![odd],
+                1 => vec![plain("first"), odd],
+                _ => vec![odd, plain("last")],
+            };
+            f(&Program { entries, comment: None, comment_last: false }, (13 << 32) + i, "size-neutral-contents", st);
+        });
+        total_stats.merge(s);
+        bounds.insert("size_neutral_contents".into(), json!(neutral.iter().map(|(m, c)| format!("method {m}: {} bytes", c.len())).collect::<Vec<_>>()));
+    }
     // (9) entry counts around the 16-bit limit x comment variants (the end records change shape at 65536 entries)
     let counts = [65_534usize, 65_535, 65_536, 65_537];
     let s = par_for((counts.len() * 3) as u64, 1, |i, st| {
